@@ -663,12 +663,18 @@ static void at_termination(vbi_decoder *vbi, int ti)
 	struct tx *t = &txs[ti];
 	struct mpage prev, *pp = mp_find(t->pgno, t->subno), *m;
 	static vbi_page pg;
-	int had_prev = 0, hi;
+	int had_prev = 0, hi, wc_ok, wc_pgno = 0, wc_subno = 0;
 
 	if (pp) { prev = *pp; had_prev = 1; }
 	m = mp_apply(t);
 	if (!m) return;
 	vf_count("transmissions_terminated", 1);
+	/* The wildcard fetch comes first, before any other lookup by this monitor: a lookup moves the page
+	   found to the front of the cache's hash chain and would hide a store that did not. */
+	memset(&pg, 0, sizeof pg);
+	vf_phase("vbi_fetch_vt_page");
+	wc_ok = vbi_fetch_vt_page(vbi, &pg, t->pgno, VBI_ANY_SUBNO, VBI_WST_LEVEL_1, 25, FALSE);
+	if (wc_ok) { wc_pgno = pg.pgno; wc_subno = pg.subno; vbi_unref_page(&pg); }
 	vf_phase("vbi_is_cached");
 	if (!vbi_is_cached(vbi, t->pgno, t->subno) && t->events == 0) {
 		/* one cause, one key: the transmission left no trace at all */
@@ -680,14 +686,11 @@ static void at_termination(vbi_decoder *vbi, int ti)
 		vf_fail("model:C02:event-count", "page %03x/%02x (serial=%d erase=%d, header at packet %d, terminated at packet %d): %d VBI_EVENT_TTX_PAGE events for this transmission, expected exactly 1",
 			t->pgno, t->subno, net_serial, !!(t->ctl & CB(4)), t->hdr_pos, t->term_pos, t->events);
 
-	/* wildcard first: it must return the subpage just received */
-	memset(&pg, 0, sizeof pg);
-	vf_phase("vbi_fetch_vt_page");
-	if (vbi_fetch_vt_page(vbi, &pg, t->pgno, VBI_ANY_SUBNO, VBI_WST_LEVEL_1, 25, FALSE)) {
-		if (pg.pgno != t->pgno || pg.subno != t->subno)
+	/* the wildcard fetch must have returned the subpage just received */
+	if (wc_ok) {
+		if (wc_pgno != t->pgno || wc_subno != t->subno)
 			vf_fail("model:C02:wildcard-subpage", "wildcard fetch of %03x right after reception of subpage %02x returned %03x/%02x",
-				t->pgno, t->subno, pg.pgno, pg.subno);
-		vbi_unref_page(&pg);
+				t->pgno, t->subno, wc_pgno, wc_subno);
 	} else
 		vf_fail("model:C02:not-cached", "wildcard fetch of page %03x fails right after subpage %02x terminated (serial=%d)", t->pgno, t->subno, net_serial);
 	vf_count("wildcard_fetches", 1);
